@@ -66,7 +66,7 @@ var extraTypes = []string{
 	"*@{net/http}.Request", "@{net/http}.ResponseWriter", "@{net/http}.Handler", "@{context}.Context", "[]@{context}.Context", "@{time}.Time", "@{~/dep/time}.T",
 	"@{~/x/sync}.T", "*@{sync}.Mutex", "@{~/names/s}.T", "@{~/names/err}.T", "@{~/names/mock}.T", "@{~/names/n}.T",
 	"String", "Int", "[]String", "Error", "*Error", "Append", "[]Append", "Panic", "Nil", "*Nil",
-	"@{~/b/foo}.G[@{~/b/foo}.G[Loc]]", "Box[Box[Loc]]", "map[@{~/b/foo}.T]@{~/b/foo}.G[*@{~/a/foo}.T]", "@{~/b/foo}.G[map[@{~/b/foo}.T][]@{~/a/foo}.T]", "map[string]@{~/b/foo}.G[[]Loc]",
+	"@{~/b/foo}.G[@{~/b/foo}.G[Loc]]", "Box[Box[Loc]]", "@{~/a/foo}.S[Loc]", "@{~/a/foo}.S[@{~/b/foo}.T]", "@{~/apps/v1beta1}.T", "@{~/apps/v2}.T", "@{~/a/foo}.Getter[Loc]", "map[@{~/b/foo}.T]@{~/b/foo}.G[*@{~/a/foo}.T]", "@{~/b/foo}.G[map[@{~/b/foo}.T][]@{~/a/foo}.T]", "map[string]@{~/b/foo}.G[[]Loc]",
 }
 
 // typeAlphabet returns T_1 (depth ≤ 1) or T_2 (depth ≤ 2 over a reduced atom set).
@@ -344,7 +344,7 @@ func scopeName3() []*SrcPkg {
 var impPool = []string{
 	"~/a/foo", "~/b/foo", "~/c/afoo", "~/x/sync", "~/d/bar", "~/e/go-foo", "~/e/foo", "~/v1/api", "~/v2/api",
 	"~/1st/log", "~/2nd/log", "~/dep/time", "~/yaml.v2", "~/Upper/Case", "~/names/s", "~/names/err", "~/names/mock",
-	"~/kw/type", "~/names/fooMoqParam", "time", "sync", "text/template", "html/template",
+	"~/kw/type", "~/names/fooMoqParam", "~/apps/v1beta1", "time", "sync", "text/template", "html/template",
 }
 
 // scopeImp: all ordered selections of 1..k packages from the pool; each selection is
@@ -378,6 +378,8 @@ func impPkg(dir string, sel []string, mode string) *SrcPkg {
 			if i > 0 && depName(sel[0]) != depName(key) {
 				alias = depName(sel[0])
 			}
+		case "alias-same": // every file uses the same alias for its (different) package
+			alias = "model"
 		case "alias-dirname":
 			if b := strings.ToLower(key[strings.LastIndex(key, "/")+1:]); validIdent(b) && b != depName(key) {
 				alias = b
@@ -440,6 +442,7 @@ func scopeImp(k int, aliasModes bool) []*SrcPkg {
 				emit("blank-extra")
 				if len(sel) > 1 {
 					emit("alias-as-first")
+					emit("alias-same")
 				}
 			}
 		}
@@ -472,7 +475,7 @@ func scopeGen() []*SrcPkg {
 	type cons struct{ src, tag string }
 	constraints := []cons{
 		{"any", "any"}, {"comparable", "comparable"}, {"@{fmt}.Stringer", "fmt.Stringer"}, {"Str", "localmethod"},
-		{"~int | ~string", "union-basic"}, {"interface{ comparable; ~int | ~string }", "cmp+union"}, {"interface{ Num; ~int }", "named+core"}, {"int | string", "union-plain"}, {"Num", "named-union"}, {"@{~/a/foo}.Ord", "dep-named-union"},
+		{"~int | ~string", "union-basic"}, {"~string | ~[]@{~/a/foo}.T", "tilde-dep-slice"}, {"interface{ comparable; ~int | ~string }", "cmp+union"}, {"interface{ Num; ~int }", "named+core"}, {"int | string", "union-plain"}, {"Num", "named-union"}, {"@{~/a/foo}.Ord", "dep-named-union"},
 		{"@{~/a/foo}.T | @{~/a/foo}.B", "dep-union"}, {"interface{ comparable; String() string }", "cmp+method"},
 		{"interface{ ~int; String() string }", "core+method"}, {"[]int | []string", "union-slices"}, {"~[]byte", "tilde-slice"},
 		{"interface{ Loc }", "embeds-named-noniface"}, {"interface{ @{time}.Duration }", "embeds-std-noniface"},
@@ -652,10 +655,11 @@ func scopeListPkg() *SrcPkg {
 		{Name: "a.go", Decls: "type LA interface{ M(afoo int, x @{~/a/foo}.T) }\n\ntype LD interface{ D(@{~/a/foo}.T) @{~/a/foo}.T }\n"},
 		{Name: "b.go", Decls: "type LB interface{ N(y @{~/b/foo}.T) }\n"},
 		{Name: "k.go", Decls: "type LK[K @{~/a/foo}.Ord] interface{ Key(k K) K }\n\ntype LM[K @{~/a/foo}.I] interface{ Use(k K) }\n\ntype LV interface{ V(n int, xs ...@{~/a/foo}.T) []@{~/a/foo}.T }\n"},
+		{Name: "p.go", Decls: "type LP interface{ @{~/a/foo}.Getter[int] }\n\ntype LQ interface{ @{~/a/foo}.Getter[string]; Other() }\n"},
 		{Name: "r.go", Decls: "type RA interface{ ResetGetCalls(); Get2() }\n\ntype RB interface{ Get() int }\n"},
 		{Name: "c.go", Decls: "type LC interface{ P(s string, t @{time}.Time) error }\n\ntype LE[T any] interface{ Q(T) (T, error) }\n\ntype LF interface{ R(Loc) }\n\ntype LZ interface{}\n\ntype LG = interface{ Do(int) }\n\ntype LH = interface{ Do(s string) error }\n"},
 	}
-	for _, n := range []string{"LA", "LB", "LC", "LD", "LE", "LF", "LG", "LH", "LZ", "LK", "LM", "LV", "RA", "RB"} {
+	for _, n := range []string{"LA", "LB", "LC", "LD", "LE", "LF", "LG", "LH", "LZ", "LK", "LM", "LV", "RA", "RB", "LP", "LQ"} {
 		sp.Ifaces = append(sp.Ifaces, IfaceCase{Name: n, Scope: "S-list"})
 	}
 	return sp
@@ -701,6 +705,7 @@ func scopeListArgs() [][]string {
 	// by a later argument (and the other order)
 	out = append(out, []string{"LM"}, []string{"LM", "LB"}, []string{"LB", "LM"}, []string{"LM", "LC", "LB"}, []string{"LK", "LM", "LB"})
 	out = append(out, []string{"LV"}, []string{"LV", "LB"}, []string{"LB", "LV"}, []string{"LV", "LC", "LB"}, []string{"RA"}, []string{"RB"}, []string{"RA", "RB"}, []string{"RB", "RA"})
+	out = append(out, []string{"LP"}, []string{"LQ"}, []string{"LP", "LQ"}, []string{"LQ", "LP"}, []string{"LP", "LD", "LQ"})
 	// duplicates of the same interface under two mock names
 	out = append(out, []string{"LA", "LA:Second"}, []string{"LF:One", "LF:Two", "LB"})
 	// interfaces declared as aliases of interface literals whose methods share a name
